@@ -24,8 +24,10 @@ type vhTransport struct {
 	rx         func(t *vhTransport) (envelope, error)
 	lastRx     *Session
 	sendFails  bool
-	failSends  int // the next n sends fail
-	txFailFin  int // failed attempts to send a finished session
+	failSends  int  // the next n sends fail
+	setFailed  bool // a SetCompression / SetEncryption call failed ...
+	sentAtFail int  // ... when this many envelopes had been sent
+	txFailFin  int  // failed attempts to send a finished session
 	setFails   bool
 	rxErrs     int
 	rxAliens   int
@@ -108,6 +110,9 @@ func (t *vhTransport) Compression() SessionCompression            { return t.com
 func (t *vhTransport) SetCompression(_ context.Context, c SessionCompression) error {
 	t.calls = append(t.calls, "setcomp:"+string(c))
 	if t.setFails && nondetBool("setcomp.fail") {
+		if !t.setFailed {
+			t.setFailed, t.sentAtFail = true, len(t.sent)
+		}
 		return errVhStub
 	}
 	t.comp = c
@@ -118,6 +123,9 @@ func (t *vhTransport) Encryption() SessionEncryption            { return t.enc }
 func (t *vhTransport) SetEncryption(_ context.Context, e SessionEncryption) error {
 	t.calls = append(t.calls, "setenc:"+string(e))
 	if t.setFails && nondetBool("setenc.fail") {
+		if !t.setFailed {
+			t.setFailed, t.sentAtFail = true, len(t.sent)
+		}
 		return errVhStub
 	}
 	t.enc = e
@@ -210,7 +218,8 @@ type vhServerEnv struct {
 var vhEncConfigs = [][]SessionEncryption{
 	{SessionEncryptionNone}, {SessionEncryptionTLS}, {SessionEncryptionNone, SessionEncryptionTLS}, {SessionEncryptionTLS, SessionEncryptionNone}}
 var vhCompConfigs = [][]SessionCompression{
-	{SessionCompressionNone}, {SessionCompressionNone, SessionCompressionGzip}, {SessionCompressionGzip}}
+	{SessionCompressionNone}, {SessionCompressionNone, SessionCompressionGzip}, {SessionCompressionGzip},
+	{SessionCompressionGzip, SessionCompressionNone}}
 var vhSchemeConfigs = [][]AuthenticationScheme{
 	{AuthenticationSchemeGuest}, {AuthenticationSchemePlain}, {AuthenticationSchemePlain, AuthenticationSchemeKey},
 	{AuthenticationSchemeGuest, AuthenticationSchemeTransport, AuthenticationSchemeExternal}}
@@ -552,6 +561,7 @@ func HarnessC09Server() {
 	vAssume(env.sane())
 	supEnc := env.t.supEnc
 	supComp := env.t.supComp
+	enc0 := env.t.enc
 	_ = env.establish()
 	t := env.t
 	vReach("c09:handshake-returned")
@@ -573,6 +583,27 @@ func HarnessC09Server() {
 		if s.State == SessionStateAuthenticating && authAt < 0 {
 			authAt = i
 		}
+	}
+	// a proper `new` is answered with the offer whenever there is something to negotiate
+	ne, nc := 0, 0
+	var onlyEnc SessionEncryption
+	var onlyComp SessionCompression
+	for i := 0; i < len(env.encOpts); i++ {
+		if vhEncIn(env.encOpts[i], supEnc) {
+			ne++
+			onlyEnc = env.encOpts[i]
+		}
+	}
+	for i := 0; i < len(env.compOpts); i++ {
+		if vhCompIn(env.compOpts[i], supComp) {
+			nc++
+			onlyComp = env.compOpts[i]
+		}
+	}
+	if len(t.rxLog) >= 1 && t.rxLog[0].State == SessionStateNew && t.rxLog[0].ID == "" && t.rxErrs == 0 && t.rxAliens == 0 && !t.sendFails &&
+		(ne > 1 || nc > 1 || (ne == 1 && onlyEnc != enc0) || (nc == 1 && onlyComp != SessionCompressionNone)) {
+		vReach("c09:negotiation-needed")
+		vAssert(offer != nil, "c09:negotiation-is-offered-when-there-is-a-choice")
 	}
 	if offer != nil {
 		vReach("c09:negotiation-offered")
